@@ -14,6 +14,8 @@ import DltVerif.Spec.WF
 import DltVerif.Spec.Reader
 import DltVerif.Spec.Stats
 import DltVerif.Spec.Zts
+import DltVerif.Spec.TypeInfo
+import DltVerif.Spec.Fixed
 
 namespace Dlt.Ops
 open Dlt.Wire
@@ -419,10 +421,19 @@ def dispatch (op : String) (args : List String) : Except String String :=
   match op with
   | "FROMMS" => do let n ← run nat args; pure (pTime (fromMs n))
   | "FROMUS" => do let n ← run nat args; pure (pTime (fromUs n))
-  | "REAL" => do let a ← run argument args; pure (pOptNat a.toRealValue)
+  | "REAL" => do
+    let a ← run argument args
+    let spec := match Spec.realValue a with
+      | .nothing => "none"
+      | .exactly n => s!"some {n}"
+      | .unspecified => "skip"
+    pure (pOptNat a.toRealValue ++ " @@ spec=" ++ spec)
   | "HTYP" => do let b ← run (bv 8) args; pure (htyp b)
   | "MSIN" => do let b ← run (bv 8) args; pure (msin b)
-  | "TI" => do let w ← run (bv 32) args; pure (ti w)
+  | "TI" => do
+    let w ← run (bv 32) args
+    let spec := if Spec.tiSupported w.toNat then s!"accept mask={Spec.tiUnusedMask w.toNat}" else "reject"
+    pure (ti w ++ " @@ spec=" ++ spec)
   | "ZTS" => do
     let (n, s) ← run (do let n ← nat; let s ← bytes; pure (n, s)) args
     pure (pZts (zts n s) ++ " @@ spec=" ++ pZtsSpec n s)
